@@ -255,7 +255,7 @@ def run(ctx):
                           "a per-style name closure branches on the style it is asked for (bb%s): the name for that one style is computed differently "
                           "from the others, so the same item can be written under one name and sampled/grouped under another" % dep,
                           "no branch on the style parameter")
-    ctx.floor("R07.5", "per-style name closures in the macro", nsc, 4)
+    ctx.floor("R07.5", "per-style name closures in the macro", nsc, 2)
     # ------------------------------------------------------------------ R07.2 generator <-> trait positional agreement
     # the generator of the per-field Inflect type: the body that builds four ConstStr items through one local helper
     def _const_str_callee(x):
